@@ -1048,6 +1048,13 @@ ElemNumber::formatNumberList(
     {
         theResult += *trailerStrIt;
     }
+    else if (theVectorSize == 1 && leaderStrIt != endIt)
+    {
+        // The format string is a single non-alphanumeric token: it is
+        // the first and the last token, so the constructed string starts
+        // and ends with it (XSLT 7.7.1).
+        theResult += *leaderStrIt;
+    }
 }
 
 
